@@ -1,58 +1,442 @@
-# C04 -- personal names are split into first / von / last / jr parts.
-# Model: coq/Model/Names.v (+ Model/BibtexStr.v); theorems: coq/Props/C04.v
-import itertools, random
+# C04 -- personal names are split into first / von / last / jr parts as BibTeX does.
+# Model: coq/Model/Names.v (+ Model/BibtexStr.v split_tex_string, scan); spec: coq/Spec/Names.v;
+# theorems: coq/Props/C04.v (proofs in coq/Proofs/Names*.v)
+import itertools, random, json, os
 from core import *
 
 ID = 'C04'
 
+# ------------------------------------------------------------------------------------------
+# implementation wrappers
 def _person(*args, **kw):
     from pybtex.database import Person
     from pybtex import errors
     with errors.capture() as captured:
         p = Person(*args, **kw)
-    return [[p.first_names, p.middle_names, p.prelast_names, p.last_names, p.lineage_names], 1 if captured else 0]
+    return [[p.first_names, p.middle_names, p.prelast_names, p.last_names, p.lineage_names, p.bibtex_first_names],
+            1 if captured else 0]
 
 def impl_person(a): return call_impl(_person, S(a[0]))
 def impl_person_parts(a):
     return call_impl(lambda: _person(S(a[0]), first=S(a[1]), middle=S(a[2]), prelast=S(a[3]), last=S(a[4]), lineage=S(a[5])))
-def impl_str(a):
-    from pybtex.database import Person
-    from pybtex import errors
-    def f():
-        with errors.capture():
-            return str(Person(S(a[0])))
-    return call_impl(f)
+def impl_split_space(a):
+    from pybtex.bibtex.utils import split_tex_string
+    return call_impl(split_tex_string, S(a[0]))
+def impl_split_comma(a):
+    from pybtex.bibtex.utils import split_tex_string
+    return call_impl(split_tex_string, S(a[0]), ',')
 
 FUNCS = {
     1: ('Person(string)', impl_person, ('T', 'S')),
     2: ('Person(string, first=, middle=, prelast=, last=, lineage=)', impl_person_parts, ('T', 'S', 'S', 'S', 'S', 'S', 'S')),
-    3: ('str(Person(string))', impl_str, ('T', 'S')),
+    4: ('split_tex_string(s)', impl_split_space, ('T', 'S')),
+    5: ("split_tex_string(s, ',')", impl_split_comma, ('T', 'S')),
 }
-RULE = 'placeholder'
-EXHAUSTIVE = {}
-TRUSTED_BASE = []
-ASSUMPTIONS = []
-PARTIAL = []
+
+RULE = ('exhaustive_shapes: every sequence of up to N tokens over ten token classes (Capitalised, lowercase, braced, special-char upper, '
+        'special-char lower, caseless word, empty group, hyphenated, tie-joined pair, brace-then-lowercase), each token made distinct by a position digit, '
+        'x every placement of 0..3 commas in the gaps (also before the first and after the last token); '
+        'exhaustive_chars: every string over {a B space ~ , { } \\} up to the length bound given to Person() and to split_tex_string with both separators; '
+        'von_token_sweep: every string over {a B 1 { } \\} up to length 5 as the middle token of "Bq <tok> Bz" and as the first token of "<tok> Bz, Bq"; '
+        'random: 1-7 tokens from a pool of 40 shapes, random separators (space runs, ~, "\\ ", all 29 whitespace code points), 0-4 commas; '
+        'noise: random strings over {letters space ~ - { } \\ ,}; malformed: delete/duplicate/replace/truncate mutations of valid names; '
+        'pinned: the inputs of F1 and of every disagreement seen while building the check. '
+        'distinct = distinct (function, argument); non-trivial = the model returns a person with a non-empty von or jr part, or reports too many commas, or splits into >= 2 tokens.')
+EXHAUSTIVE = {'quick': 'all token-class sequences of length <= 3 x 0..3 commas and a fixed third of those of length 4 x 0..2 commas (ten classes); all strings of length <= 5 over the 8-letter alphabet {a B space ~ , { } \\}; all middle tokens of length <= 5 over {a B 1 { } \\}',
+              'thorough': 'all token-class sequences of length <= 3 x 0..3 commas and of length 4 x 0..2 commas (ten classes); all strings of length <= 5 over the 8-letter alphabet and of length 6 over {a space ~ , { }}; all middle tokens of length <= 6 over {a B 1 { } \\}'}
+TRUSTED_BASE = ['modelled (not verified) code: pybtex/database/__init__.py Person.__init__/_parse_string (617-789) and pybtex/bibtex/utils.py '
+                'split_tex_string/_find_closing_brace/BIBTEX_SPACE_RE (445-552), BibTeXString/scan_bibtex_string (96-147, 408-418)',
+                'BIBTEX_SPACE_RE and the "," separator are hand-written matchers (Model/BibtexStr.v space_run, sep_comma), compared with the live '
+                're objects through split_tex_string on the exhaustive character stream and a per-code-point sweep']
+ASSUMPTIONS = ['letter classes and case are modelled on ASCII (Base/PyChar.v); non-ASCII letters are outside the claimed domain (DESIGN.md 2.2)',
+               'Python str.isspace / regex \\s = the 29 code points of Base/PyChar.is_space (re-measured on every run over all of Unicode)']
+PARTIAL = ['token_case_rule holds only for tokens without a backslash at brace level 1 (outside special characters) before the deciding character '
+           '(token_case_rule_partial); for the others the code deviates from the property text (token_case_rule_refuted, finding FC04a)',
+           'more than 100 nested braces in a token that does not start with a letter make Person() raise BibTeXError (a pybtex error, parse_name_guard, '
+           'known finding FC04b, reported by the oracle): parse_name_total says "no foreign exception, no divergence" for every string, parse_name_ok gives success for every string with <= 100 opening braces',
+           'tokenizer_spec (split_tex_string(s) = the brace-level tokenizer of Spec/Names.v) is proved for strings whose braces are all closed; for strings with an '
+           'unclosed group the code splits at inner braces, the property text fixes no brace level there and the oracle only demands conservation of characters; '
+           'the comma split has conservation and atomicity theorems only, its exact boundaries are checked by the oracle']
 
 def describe(fn, a):
     return {'function': FUNCS[fn][0], 'args': [S(x) for x in a]}
 
+def nontrivial(fn, a, out):
+    if out[0] != 0:
+        return False
+    if fn in (1, 2):
+        p, rep = out[1]
+        return bool(p[2] or p[4] or rep)
+    return len(out[1]) >= 2
+
+# ------------------------------------------------------------------------------------------
+# the property itself, in plain Python, independent of pybtex
+def o_profile(s):
+    """(all opened braces are closed, maximal depth) -- a '}' at depth 0 is an ordinary character"""
+    d = mx = 0
+    for c in s:
+        if c == '{':
+            d += 1; mx = max(mx, d)
+        elif c == '}' and d > 0:
+            d -= 1
+    return d == 0, mx
+
+def o_split(s, comma):
+    """split at brace-level-0 commas (comma=True: pieces are stripped, empty ones kept) or at brace-level-0
+    whitespace, control spaces and unescaped ties (comma=False: empty pieces dropped)"""
+    pieces, cur, d, i, n = [], [], 0, 0, len(s)
+    while i < n:
+        c = s[i]
+        if c == '{':
+            d += 1
+        elif c == '}':
+            if d > 0:
+                d -= 1
+        elif d == 0:
+            if comma:
+                if c == ',':
+                    pieces.append(''.join(cur)); cur = []; i += 1
+                    continue
+            else:
+                if c.isspace() or (c == '~' and not (i > 0 and s[i - 1] == '\\')):
+                    pieces.append(''.join(cur)); cur = []; i += 1
+                    continue
+                if c == '\\' and i + 1 < n and s[i + 1] == ' ':
+                    pieces.append(''.join(cur)); cur = []; i += 2
+                    continue
+        cur.append(c); i += 1
+    pieces.append(''.join(cur))
+    if comma:
+        return [p.strip() for p in pieces]
+    return [p for p in pieces if p]
+
+def o_special_lower(inner):
+    """inner = the special character without its outer braces, starting with the backslash"""
+    i, n = 1, len(inner)
+    while i < n and inner[i].isalpha():      # control word
+        i += 1
+    i += 1                                    # the non-letter that ends it (or the one-character control symbol)
+    while i < n:
+        if inner[i].isalpha():
+            return inner[i].islower()
+        i += 1
+    return False
+
+def o_is_von(tok):
+    """a token is 'lowercase' iff its first brace-level-0 letter is, or its first special character
+    (a brace-level-0 '{' immediately followed by a backslash) has a lowercase first letter after the control sequence"""
+    d, i, n = 0, 0, len(tok)
+    while i < n:
+        c = tok[i]
+        if c == '{':
+            if d == 0 and i + 1 < n and tok[i + 1] == '\\':
+                j, dd = i + 1, 1
+                while j < n:
+                    if tok[j] == '{':
+                        dd += 1
+                    elif tok[j] == '}':
+                        dd -= 1
+                        if dd == 0:
+                            break
+                    j += 1
+                return o_special_lower(tok[i + 1:j])
+            d += 1
+        elif c == '}':
+            if d > 0:
+                d -= 1
+        elif d == 0 and c.isalpha():
+            return c.islower()
+        i += 1
+    return False
+
+def o_von_last(ts):
+    """'von Last' part: the von part ends at the last lowercase token that is not the last token"""
+    js = [i for i in range(len(ts) - 1) if o_is_von(ts[i])]
+    j = js[-1] + 1 if js else 0
+    return ts[:j], ts[j:]
+
+def o_expect(s):
+    s = s.strip()
+    if not s:
+        return [[], [], [], [], []], 0
+    parts = o_split(s, True)
+    rep = 1 if len(parts) > 3 else 0
+    if rep:
+        parts = parts[:2] + [' '.join(parts[2:])]
+    lineage = []
+    if len(parts) == 1:
+        ts = o_split(s, False)
+        vs = [i for i in range(len(ts) - 1) if o_is_von(ts[i])]
+        if vs:
+            fm, von, last = ts[:vs[0]], ts[vs[0]:vs[-1] + 1], ts[vs[-1] + 1:]
+        else:
+            fm, von, last = ts[:-1], [], ts[-1:]
+    else:
+        von, last = o_von_last(o_split(parts[0], False))
+        fm = o_split(parts[-1], False)
+        if len(parts) == 3:
+            lineage = o_split(parts[1], False)
+    return [fm[:1], fm[1:], von, last, lineage], rep
+
+_DROP = set('~\\,')
+def o_content(x):
+    return ''.join(c for c in x if not c.isspace() and c not in _DROP)
+
+def oracle(fn, arg, out):
+    strs = [S(x) for x in arg]
+    closed = all(o_profile(x)[0] for x in strs)
+    if out[0] == 2:
+        return 'a foreign (non-pybtex) exception was raised for %r' % (strs,)
+    if out[0] == 1:
+        return 'a pybtex error was raised (not merely reported): parsing does not succeed for %s' % (
+            ', '.join(repr(x) if len(x) < 60 else repr(x[:25] + '...' + x[-25:]) + ' (length %d, brace depth %d)' % (len(x), o_profile(x)[1]) for x in strs),)
+    if fn in (4, 5):
+        got = [S(t) for t in out[1]]
+        if closed:
+            exp = o_split(strs[0], fn == 5) if strs[0] else []
+            if got != exp:
+                return 'split_tex_string(%r%s) = %r, tokens at brace level 0 are %r' % (strs[0], ", ','" if fn == 5 else '', got, exp)
+            for t in got:
+                if not o_profile(t)[0]:
+                    return 'a braced group was split: token %r of %r' % (t, strs[0])
+        if o_content(''.join(got)) != o_content(strs[0]):
+            return 'characters lost, duplicated or reordered: %r -> %r' % (strs[0], got)
+        return None
+    lists = [[S(t) for t in l] for l in out[1][0]]
+    rep = out[1][1]
+    first, middle, prelast, last, lineage, bfn = lists
+    if bfn != first + middle:
+        return 'bibtex_first_names %r is not first + middle' % (bfn,)
+    for l in lists:
+        for t in l:
+            if t == '' or t != t.strip():
+                return 'empty or unstripped token %r' % (t,)
+    if fn == 1 and len(middle) > 0 and len(first) != 1:
+        return 'middle names without exactly one first name'
+    if closed:
+        exp, erep = o_expect(strs[0])
+        if fn == 2:
+            extra = [o_split(x, False) for x in strs[1:6]]
+            exp = [exp[k] + extra[k] for k in range(5)]
+        if lists[:5] != exp:
+            return 'Person(%s): first/middle/von/last/jr = %r, BibTeX rule gives %r' % (', '.join(map(repr, strs)), lists[:5], exp)
+        if rep != erep:
+            return 'too-many-commas report is %d, expected %d for %r' % (rep, erep, strs[0])
+        for t in sum(lists[:5], []):
+            if not o_profile(t)[0]:
+                return 'a braced group was split: token %r' % (t,)
+        return None
+    # some brace is never closed: the property text does not fix the brace level; demand conservation only
+    if fn == 1:
+        want = o_content(strs[0])
+        a = o_content(''.join(first + middle + prelast + last + lineage))
+        b = o_content(''.join(prelast + last + lineage + first + middle))
+        if want != a and want != b:
+            return 'characters lost, duplicated or reordered: %r -> %r' % (strs[0], lists[:5])
+    return None
+
+# ------------------------------------------------------------------------------------------
+# known finding FC04a: a backslash at brace level 1 that does not open a special character makes is_von_name
+# answer "not von" at once (scan_bibtex_string yields it as a level-1 token that startswith('\\'))
+def _quirk_positions(s):
+    """positions of backslashes at brace level 1 inside a group that is not a special character"""
+    pos, d, special, i, n = [], 0, False, 0, len(s)
+    sd = 0
+    while i < n:
+        c = s[i]
+        if special:
+            if c == '{':
+                sd += 1
+            elif c == '}':
+                if sd == 0:
+                    special = False
+                else:
+                    sd -= 1
+        elif c == '{':
+            if d == 0 and i + 1 < n and s[i + 1] == '\\':
+                special, sd = True, 0
+            else:
+                d += 1
+        elif c == '}':
+            if d > 0:
+                d -= 1
+        elif c == '\\' and d == 1:
+            pos.append(i)
+        i += 1
+    return pos
+
+def _neutralise(s):
+    q = set(_quirk_positions(s))
+    return ''.join('/' if i in q else c for i, c in enumerate(s))
+
+def _sig_fc04a(kind, fn, arg, detail):
+    if kind != 'oracle' or fn not in (1, 2):
+        return False
+    strs = [S(x) for x in arg]
+    if not _quirk_positions(strs[0]):
+        return False
+    arg2 = norm([_neutralise(strs[0])] + strs[1:])
+    return oracle(fn, arg2, FUNCS[fn][1](arg2)) is None
+
+# known finding FC04b: the recursion guard of BibTeXString (max_level = 100): a token that does not start with a letter and
+# nests braces more than 100 deep makes Person() raise BibTeXError('too many nested braces')
+def _sig_fc04b(kind, fn, arg, detail):
+    if kind != 'oracle' or fn not in (1, 2) or not str(detail).startswith('a pybtex error was raised'):
+        return False
+    return max(o_profile(S(x))[1] for x in arg) > 100
+
+KNOWN_SIGNATURES = {'FC04a': _sig_fc04a, 'FC04b': _sig_fc04b}
+
+def replay_known(finding):
+    p = finding.get('pinned')
+    if not p:
+        return None
+    arg = norm(p['arg'])
+    return oracle(p['fn'], arg, FUNCS[p['fn']][1](arg))
+
+def search_failing(ck, fn, arg, rng):
+    """a model/implementation disagreement: look for an input near it on which the property itself fails"""
+    s = S(arg[0])
+    cands = [s, 'Bq ' + s + ' Bz', s + ' Bz, Bq', 'Bq, ' + s, 'de ' + s + ' Bz', s + ' Bz', 'Bq ' + s, 'Bq de ' + s + ' Bz', s + ', jr, Bq']
+    for t in s.split():
+        cands += ['Bq ' + t + ' Bz', t + ' Bz, Bq']
+    for c in cands:
+        for f in (1, 4, 5):
+            a = norm([c])
+            try:
+                m = oracle(f, a, FUNCS[f][1](a))
+            except Exception:
+                m = None
+            if m and not _sig_fc04a('oracle', f, a, m):
+                return (a, m) if f == fn else (a, '[via %s] %s' % (FUNCS[f][0], m))
+    return None
+
+# ------------------------------------------------------------------------------------------
+# generators
+WS = [chr(c) for c in (32, 9, 10, 11, 12, 13, 28, 31, 133, 160, 5760, 8192, 8195, 8201, 8202, 8232, 8233, 8239, 8287, 12288)]
+CLASSES = ['Ab', 'de', '{V w}', "{\\'E}x", "{\\'e}X", '1st', '{}', 'Je-an', 'A.~b.', '{A}b']
 ALPHA = 'aB ~,{}\\'
+POOL = ['Jean', 'de', 'la', 'von', 'Fontaine', '{Van}', "{\\'E}douard", "{\\'e}x", '1st', '{}', 'Jean-Paul', 'A.~B.', 'jr',
+        '{\\relax van}', '\\LaTeX', "d'Aviano", '{\\a{b}', 'x\\ y', 'q\\~r', '{von der}', '{\\o}', '{\\OE}x', "{\\'{e}}", "{\\'{E}}b",
+        '{A}b', '{a}B', '{{\\e}}x', '{-}x', '-x', '.Y', '{\\1a}', '{\\1A}', '{\\ab c}', '{\\ab C}', 'III', "{\\'}", '{x}{\\y Z}', 'a}b', 'M{\\"u}ller', "{\\'e"]
+PINNED = ['x ' + '{' * 101 + ' y', '~', '~ ~', '\\ ', ',', ',,', ',,,', '{', '}', '{\\', '{\\}', 'a,b,c,d,e', 'a,b,c\\,d', '~,~', ' , ', 'Jean {a\\b}c Last', '{a\\b}c Last, Jean',
+          'Jean {ab}c Last', 'Jean {\\o} Last', '{' * 101 + 'a', 'a ' + '{' * 101 + 'a', '{' * 100 + 'a' + '}' * 100 + ' b', 'de la Fontaine', 'Jean de la Fontaine',
+          'de la Fontaine, Jean', 'de la Fontaine, jr, Jean', 'Jean de', 'de', 'jean de la fontaine', 'Jean de La Fontaine du Bois Joli', 'Jean {de} la Fontaine',
+          '{a{b c d', '{a{b, c', 'a{b} c}d {e', 'x\\~y z', 'x\\\\~y z', 'x\\\\ y', 'a b', 'a b　c', 'A,\\ B', '\\', 'a\\', '{\\a b} c', '{\\a, b}, c']
+
+def _shape(classes, commas):
+    """classes: tuple of class indices; commas: tuple, number of commas in each of the len+1 gaps"""
+    out = [',' * commas[0]]
+    for i, c in enumerate(classes):
+        out.append(CLASSES[c] + str(i) + ',' * commas[i + 1])
+    return ' '.join(x for x in out if x)
+
+def _comma_placements(ngaps, k):
+    for combo in itertools.combinations_with_replacement(range(ngaps), k):
+        c = [0] * ngaps
+        for g in combo:
+            c[g] += 1
+        yield tuple(c)
+
 def gen(tier, rng):
-    for n in range(0, 6 if tier == 'quick' else 7):
+    quick = tier == 'quick'
+    for s in PINNED:
+        yield ('pinned', 1, [s])
+        yield ('pinned', 4, [s])
+        yield ('pinned', 5, [s])
+    # (a) exhaustive over token-class shapes
+    ncls = len(CLASSES)
+    plan = [(0, 3), (1, 3), (2, 3), (3, 3), (4, 2)]
+    for ntok, maxc in plan:
+        placements = [p for k in range(maxc + 1) for p in _comma_placements(ntok + 1, k)]
+        for classes in itertools.product(range(ncls), repeat=ntok):
+            if ntok == 4 and quick and (classes[0] + 3 * classes[1] + 7 * classes[2] + classes[3]) % 3 != 0:
+                continue      # quick tier: a fixed third of the 4-token shapes
+            for pl in placements:
+                yield ('exhaustive_shapes', 1, [_shape(classes, pl)])
+    # (b) exhaustive over characters (totality, separators, unbalanced braces)
+    for n in range(0, 6):
         for tup in itertools.product(ALPHA, repeat=n):
             s = ''.join(tup)
-            yield ('exhaustive', 1, [s])
+            yield ('exhaustive_chars', 1, [s])
+            yield ('exhaustive_chars', 4, [s])
+            yield ('exhaustive_chars', 5, [s])
+    if not quick:
+        for tup in itertools.product('a ~,{}', repeat=6):
+            yield ('exhaustive_chars', 1, [''.join(tup)])
+    # (c) the case rule: every small token in a position where only its case decides
+    for n in range(1, 6 if quick else 7):
+        for tup in itertools.product('aB1{}\\', repeat=n):
+            t = ''.join(tup)
+            yield ('von_token_sweep', 1, ['Bq ' + t + ' Bz'])
             if n <= 4:
-                yield ('exhaustive', 3, [s])
-    toks = ['Jean', 'de', 'la', 'von', 'Fontaine', '{Van}', "{\\'E}douard", "{\\'e}x", '1st', '{}', 'Jean-Paul', 'A.~B.', 'jr', '{\\relax van}', '\\LaTeX', 'd\'Aviano', '{\\a{b}', 'x\\ y', 'q\\~r']
-    for i in range(3000 if tier == 'quick' else 40000):
-        k = rng.randint(1, 6)
-        parts = [rng.choice(toks) for _ in range(k)]
-        ncomma = rng.choice([0, 0, 1, 1, 2, 3, 4])
+                yield ('von_token_sweep', 1, [t + ' Bz, Bq'])
+    # (d) structured random
+    def sep():
+        r = rng.random()
+        if r < 0.55: return ' '
+        if r < 0.7: return '~'
+        if r < 0.8: return ' ' * rng.randint(2, 3)
+        if r < 0.87: return '\\ '
+        if r < 0.95: return rng.choice(WS)
+        return rng.choice(WS) + '~' + rng.choice(WS)
+    def name():
+        k = rng.randint(1, 7)
+        parts = [rng.choice(POOL) if rng.random() < 0.8 else rng.choice(CLASSES) for _ in range(k)]
+        ncomma = rng.choice([0, 0, 0, 1, 1, 2, 2, 3, 4])
         for _ in range(ncomma):
             parts.insert(rng.randint(0, len(parts)), ',')
-        s = rng.choice([' ', '  ', '~', ' ']).join(parts).replace(' ,', ',')
+        s = ''
+        for i, p in enumerate(parts):
+            if i and not (p == ',' and rng.random() < 0.8):
+                s += sep()
+            s += p
+        return s
+    for i in range(4000 if quick else 30000):
+        s = name()
+        if rng.random() < 0.2:
+            s = rng.choice(WS) + s + rng.choice(WS)
         yield ('random', 1, [s])
-        if i % 5 == 0:
-            yield ('random', 2, [s] + [' '.join(rng.choice(toks) for _ in range(rng.randint(0, 2))) for _ in range(5)])
+        if i % 4 == 0:
+            yield ('random', 2, [s if rng.random() < 0.5 else ''] + [sep().join(rng.choice(POOL) for _ in range(rng.randint(0, 2))) for _ in range(5)])
+        if i % 4 == 1:
+            yield ('random', 4, [s]); yield ('random', 5, [s])
+    # (e) noise
+    NOISE = 'abcXYZ  ~~-{{}}\\,,.1\''
+    for i in range(3000 if quick else 20000):
+        s = ''.join(rng.choice(NOISE) for _ in range(rng.randint(0, 24)))
+        yield ('noise', 1, [s])
+        if i % 3 == 0:
+            yield ('noise', 4, [s]); yield ('noise', 5, [s])
+    # (f) malformed: character-level mutations of valid names
+    for i in range(2000 if quick else 15000):
+        s = list(name())
+        for _ in range(rng.randint(1, 3)):
+            if not s:
+                break
+            j = rng.randrange(len(s)); r = rng.random()
+            if r < 0.3: del s[j]
+            elif r < 0.5: s.insert(j, s[j])
+            elif r < 0.8: s[j] = rng.choice('{}\\~, aB')
+            else: s = s[:j]
+        yield ('malformed', 1, [''.join(s)])
+    # deep nesting around the recursion guard (max_level = 100)
+    for d in (99, 100, 101, 102):
+        yield ('nesting', 1, ['Bq ' + '{' * d + 'x' + '}' * d + ' Bz'])
+        yield ('nesting', 1, ['Bq {\\a' + '{' * d + 'x' + '}' * d + '} Bz'])
+        yield ('nesting', 1, ['a' + '{' * d + 'x' + '}' * d + ' Bz'])
+
+def extra_checks(ck, tier, rng):
+    # the separator class of BIBTEX_SPACE_RE, one code point at a time, all of Unicode
+    from pybtex.bibtex.utils import BIBTEX_SPACE_RE
+    model_ws = set(list(range(9, 14)) + list(range(28, 33)) + [133, 160, 5760] + list(range(8192, 8203)) + [8232, 8233, 8239, 8287, 12288])
+    fails, n = [], 0
+    for cp in range(0x110000):
+        if 0xD800 <= cp <= 0xDFFF:
+            continue
+        c = chr(cp); n += 1
+        a = bool(BIBTEX_SPACE_RE.fullmatch(c)); m = cp in model_ws or cp == 126
+        if a != m or (c.isspace() != (cp in model_ws)):
+            fails.append(('U+%04X' % cp, 'BIBTEX_SPACE_RE=%s isspace=%s model=%s' % (a, c.isspace(), m), False))
+    yield {'name': 'separator_class_sweep', 'evaluations': n, 'failures': fails[:5],
+           'info': 'BIBTEX_SPACE_RE matches a single code point iff it is one of the 29 whitespace code points or ~'}
